@@ -225,14 +225,19 @@ func runDB(args []string, in *bufio.Scanner, out *bufio.Writer) {
 				return "ok:" + fmtRows(rows)
 			case "begin":
 				s.txns[rest] = s.db.GetSamehadaInstance().GetTransactionManager().Begin(nil)
-				return "ok"
+				return fmt.Sprintf("ok:%d", s.txns[rest].GetTransactionID())
 			case "tsql":
 				a := strings.SplitN(rest, " ", 2)
 				return s.runStmt(s.txns[a[0]], a[1])
 			case "commit":
+				// markers for the write-ahead check (C08): "CR <txn id>" right after the commit of a WRITING transaction returned
+				id, nw := s.txns[rest].GetTransactionID(), len(s.txns[rest].GetWriteSet())
 				s.db.GetSamehadaInstance().GetTransactionManager().Commit(s.db.GetCatalogForTesting(), s.txns[rest])
+				if nw > 0 {
+					disk.VerifMark(fmt.Sprintf("CR %d", id))
+				}
 				delete(s.txns, rest)
-				return "ok"
+				return fmt.Sprintf("ok:%d:%d", id, nw)
 			case "abort":
 				s.db.GetSamehadaInstance().GetTransactionManager().Abort(s.db.GetCatalogForTesting(), s.txns[rest])
 				delete(s.txns, rest)
